@@ -316,6 +316,38 @@ def oracle_rule_reassign(exp, r):
     return None
 
 
+def impl_selectorlist(case):
+    """case = (ns, source): SelectorList.selectorText = (text or token list, ns), errors logged"""
+    _setup()
+    import css_parser
+    from css_parser.css import SelectorList
+    ns, source = case
+    if not isinstance(source, str):
+        source = [(t, v, 1, 1) for t, v in source]
+    old = css_parser.log.raiseExceptions
+    css_parser.log.raiseExceptions = False
+    try:
+        sl = SelectorList()
+        sl.selectorText = (source, dict(ns))
+        if not sl.wellformed:
+            return ["REJ"]
+        return ["ACC", [[list(s.specificity), _items(s)] for s in sl]]
+    except Exception as e:  # noqa
+        return ["CRASH", type(e).__name__, str(e)[:200]]
+    finally:
+        css_parser.log.raiseExceptions = old
+
+
+def parse_list_result(x):
+    if x in ("CRASH", "REJ"):
+        return [x]
+    ms = []
+    for m in x[4:].split("@"):
+        r = parse_result("ACC " + m)
+        ms.append([r[1], r[2]])
+    return ["ACC", ms]
+
+
 def impl_page(text):
     _setup()
     import css_parser
@@ -626,6 +658,10 @@ def gen_soup(rng, n, ast_tokens):
     return cases
 
 
+def pool_for_lists(soup, n_soup, ast_tokens, rng):
+    return [soup[rng.randrange(n_soup)][1], [tuple(x) for x in ast_tokens[rng.randrange(len(ast_tokens))]]]
+
+
 def gen_texts(rng, n):
     out = []
     for _ in range(n):
@@ -741,7 +777,8 @@ def run(ctx):
                 parsed.append(None)
                 continue
             head, toks, res = o.split("|", 2)
-            decl, b, c, d = [int(x) for x in head.split(" ")]
+            decl, b, c, d, sepfree = [int(x) for x in head.split(" ")]
+            decl = decl and sepfree      # both side conditions of the theorems must hold for generated derivations
             mtoks = [[uncps(t.split(":")[0]), uncps(t.split(":")[1])] for t in toks.split(";")]
             texts.append((ns, "".join(v for _, v in mtoks)))
             parsed.append((decl, [b, c, d], mtoks, parse_result(res)))
@@ -811,6 +848,68 @@ def run(ctx):
         stats["soup_cases"] = n_soup
         stats["exhaustive_cases"] = len(soup) - n_soup
         stats["soup_and_exhaustive_accepted"] = acc
+
+        # ---- (s) the serialiser model (do_css_Selector over the shared Out model) against selectorText, on every
+        #          accepted case of the grammar stream and of the token stream
+        scases = [(ns, [tuple(x) for x in p_[2]], full[1]) for (ns, w, tr), p_, full in zip(asts, parsed, fulls)
+                  if p_ is not None and full[1][0] == "ACC"]
+        scases += [(ns, toks, r) for (ns, toks), r in zip(soup, res) if r[0] == "ACC"]
+        sout = ctx.run_binary(binary, ["S|%s|%s" % (ns_wire(ns), ";".join("%s:%s" % (cps(a), cps(b)) for a, b in toks))
+                                       for ns, toks, _ in scases], shards=PROCS)
+        stats["serialisations_compared"] = len(scases)
+        for (ns, toks, r), o in zip(scases, sout):
+            n_eval += 1
+            mt = uncps(o[1:]) if o.startswith("=") else None
+            if mt != r[3]:
+                mism.append(("serialise", [list(map(list, ns)), [list(x) for x in toks]],
+                             "model %r, selectorText %r" % (mt, r[3])))
+
+        # ---- (g) SelectorList: comma separated grammar selectors (oracle: every member its own triple) and comma soup
+        gl = [(ns, text, tr, toks) for (ns, w, tr), (_, text), toks in zip(asts, texts, ast_tokens) if text]
+        lcases, lexp = [], []
+        for k in range(0, min(len(gl) - 3, 9000 if thorough else 1800), 3):
+            n = rng.choice([1, 2, 2, 3])
+            part = gl[k:k + n]
+            ns = sorted(set(x for p_ in part for x in p_[0]))
+            if len({a for a, _ in ns}) != len(ns):
+                continue
+            toks = []
+            for i_, p_ in enumerate(part):
+                if i_:
+                    toks.append(("CHAR", ","))
+                toks += [tuple(x) for x in p_[3]]
+            lcases.append((ns, toks))
+            lexp.append([p_[2] for p_ in part])
+        n_good = len(lcases)
+        for _ in range(8000 if thorough else 1500):
+            ns = [x for x in NSMAP if rng.random() < 0.7]
+            toks = []
+            for _ in range(rng.randint(1, 4)):
+                toks += list(rng.choice(pool_for_lists(soup, n_soup, ast_tokens, rng)))
+                if rng.random() < 0.8:
+                    toks.append(rng.choice([("CHAR", ","), ("CHAR", ","), ("IDENT", ","), ("STRING", '","'), ("CHAR", "")]))
+            lcases.append((ns, toks))
+        lines = ["L|%s|%s" % (ns_wire(ns), ";".join("%s:%s" % (cps(a), cps(b)) for a, b in toks)) for ns, toks in lcases]
+        lout = ctx.run_binary(binary, lines, shards=PROCS)
+        lres = ctx.pool_map(impl_selectorlist, lcases, procs=PROCS, chunksize=128)
+        stats["selectorlists"] = len(lcases)
+        lfound = []
+        for k, ((ns, toks), o, r) in enumerate(zip(lcases, lout, lres)):
+            n_eval += 1
+            m = parse_list_result(o)
+            if m[0] != r[0] or (m[0] == "ACC" and m[1] != r[1]):
+                mism.append(("selectorlist", [list(map(list, ns)), [list(x) for x in toks]], "model %s, implementation %s"
+                             % (str(m)[:300], str(r)[:300])))
+            if k < n_good:
+                text = "".join(v for _, v in toks)
+                want = [[0] + list(e) for e in lexp[k]]
+                got = [x[0] for x in r[1]] if r[0] == "ACC" else r[:2]
+                if got != want:
+                    lfound.append((len(text), "SelectorList members report %s, CSS definition gives %s" % (got, want),
+                                   {"kind": "selectorlist", "ns": ns, "tokens": [list(x) for x in toks], "text": text,
+                                    "expected": want}))
+        for _, v, wit in sorted(lfound, key=lambda x: x[0])[:50]:
+            ctx.violation(v, wit, sig_text=json.dumps(wit["text"]))
 
         # ---- (d) re-assignment histories on one Selector object (commit guard), both error modes
         pool = [toks for _, toks in soup[:n_soup]] + [[tuple(x) for x in ts] for ts in ast_tokens[:3000]]
@@ -1052,6 +1151,10 @@ def replay_one(w):
             if d is not None and st[3] != st[0]:
                 return "@page selector %r reports %s but re-parses to %s" % (st[2], st[0], st[3])
         return None
+    if w.get("kind") == "selectorlist":
+        r = impl_selectorlist(([tuple(x) for x in w["ns"]], [tuple(x) for x in w["tokens"]]))
+        got = [x[0] for x in r[1]] if r[0] == "ACC" else r[:2]
+        return None if got == w["expected"] else "SelectorList members report %s, CSS definition gives %s" % (got, w["expected"])
     if w.get("kind") == "rulereassign":
         ns = [tuple(x) for x in w["ns"]]
         return oracle_rule_reassign([e[1:] for e in w["expected"]],
